@@ -204,7 +204,7 @@ Qed.
    errno on write; a failed read; POLLERR) ends in exactly the same state - every field,
    ghost streams and queues included - and with the same user-visible events as the same
    history with the faults removed; only the error log differs *)
-Theorem C11_fault_transparent : forall ops c c' e,
+Theorem fault_transparent : forall ops c c' e,
   run c ops = Ok (c', e) -> env_ok_run c ops ->
   exists e', run c (flat_map calm ops) = Ok (c', e') /\ quiet e' = quiet e /\
              forallb faultless (flat_map calm ops) = true.
@@ -222,7 +222,7 @@ Qed.
 
 (* a non-fatal write error loses nothing: sendInLoop queues the whole block behind the backlog
    (and arms write interest), handleWrite changes nothing at all *)
-Theorem C11_write_fault_keeps_backlog :
+Theorem write_fault_keeps_backlog :
   (forall c o c' e d k p, step c o = Ok (c', e) -> send_of c o = Some (d, k, p) ->
      transient k = true -> fin c = false ->
      wire c' = wire c /\ outb c' = outb c ++ d /\ accepted c' = accepted c ++ d /\
@@ -259,7 +259,7 @@ Proof.
 Qed.
 
 (* a failed read and a POLLERR change no field; they are only logged *)
-Theorem C11_read_fault_untouched : forall c c' e,
+Theorem read_fault_untouched : forall c c' e,
   (step c EvReadErr = Ok (c', e) -> c' = c /\ e = [EvErrorLogged]) /\
   (step c EvError = Ok (c', e) -> c' = c /\ e = [EvErrorLogged]).
 Proof.
@@ -271,7 +271,7 @@ Qed.
 (* why [env_ok] is needed: the one place where the model distinguishes a transient error from
    "nothing written" is the zero-length write of an empty block, where the error suppresses the
    write-complete callback (TcpConnection.cc: the callback is queued inside `if (nwrote >= 0)`) *)
-Theorem C11_empty_block_fault_visible :
+Theorem empty_block_fault_visible :
   exists c c1 c2 e1 e2, reach c /\
     step c (RunOne (Err EAGAIN)) = Ok (c1, e1) /\ step c (RunOne (Accept 0)) = Ok (c2, e2) /\
     pending c1 = [] /\ pending c2 = [FWriteComplete].
@@ -309,7 +309,50 @@ Example ex_faulty_run :
     quiet e = [EvUp; EvHWM 4; EvWC] /\ quiet e' = [EvUp; EvHWM 4; EvWC] /\ env_ok_run (init 4%N true true) ex_faulty.
 Proof. vm_compute. eexists _, _, _. repeat split. Qed.
 
-Print Assumptions C11_fault_transparent.
-Print Assumptions C11_write_fault_keeps_backlog.
-Print Assumptions C11_read_fault_untouched.
-Print Assumptions C11_empty_block_fault_visible.
+
+(* the definitions used in Properties_C11, unfolded *)
+Lemma transient_unfold : forall k, transient k = match k with Err e => negb (is_fatal e) | _ => false end.
+Proof. reflexivity. Qed.
+
+Lemma calm_unfold : forall o,
+  calm o =
+  match o with
+  | Send d k => if transient k then match d with [] => [] | _ => [Send d (Accept 0)] end else [o]
+  | RunOne k => if transient k then [RunOne (Accept 0)] else [o]
+  | EvWritable k => if transient k then [] else [o]
+  | EvReadErr | EvError => []
+  | _ => [o]
+  end.
+Proof. reflexivity. Qed.
+
+Lemma faultless_unfold : forall o,
+  faultless o =
+  match o with
+  | Send _ k | RunOne k | EvWritable k => negb (transient k)
+  | EvReadErr | EvError => false
+  | _ => true
+  end.
+Proof. reflexivity. Qed.
+
+Lemma quiet_unfold : forall e,
+  quiet e = filter (fun x => match x with EvErrorLogged => false | _ => true end) e.
+Proof.
+  intros e. unfold quiet. induction e as [|a e IH]; [reflexivity|].
+  cbn [filter]. rewrite IH. destruct a; reflexivity.
+Qed.
+
+Lemma env_ok_unfold : forall c o,
+  env_ok c o =
+  match o with
+  | RunOne k => match pending c with FSend _ [] :: _ => transient k = false | _ => True end
+  | _ => True
+  end.
+Proof. reflexivity. Qed.
+
+Lemma env_ok_run_unfold : forall c ops,
+  env_ok_run c ops =
+  match ops with
+  | [] => True
+  | o :: r => env_ok c o /\ match step c o with Ok (c1, _) => env_ok_run c1 r | _ => True end
+  end.
+Proof. intros c [|o r]; reflexivity. Qed.
